@@ -1,10 +1,190 @@
 /-
-  TwProofs.C06 — property theorems (see DESIGN.md, section 6).
+  TwProofs.C06 — a page that uses a layout renders the layout with its reserves filled.
+
+  The loader (`TwModel.Api.loadPage`, transcription of parser_utils.go / ast/program.go) turns a
+  page with `@use(L)` into the single statement `@use` whose context carries the layout's
+  statements and, per `@reserve` node of the layout, the page's `@insert` of that name.
+  Theorems: what the loader builds and which errors it reports; that rendering `@use` is
+  rendering the layout's statements; that a `@reserve` renders the bound insert (block or
+  expression) evaluated in the environment of the call, and nothing when there is none.
 -/
 import TwModel
 import TwSpec
+import TwProofs.Lemmas.EvalStep
 
 namespace Tw.C06
 open Tw
+
+/-! ### evaluation -/
+
+/-- rendering the page is rendering the layout's statements (same context, same data) -/
+theorem use_renders_layout (f : Nat) (c : Ctx) (env : Env) (t : Token) (n : Bytes) (L : List Stmt)
+    (hl : c.layout = some L) (hu : c.layoutHasUse = false) :
+    evalStmt (f + 1) c env (.use t n) = (evalProg f c env L []).bind fun r => .ok ({ text := r.1 }, r.2) := by
+  rw [evalStmt_succ]
+  simp only [stmtBody, hl, hu, calleesAt_prog]
+  rfl
+
+theorem page_renders_layout (f : Nat) (c : Ctx) (env : Env) (t : Token) (n : Bytes) (L : List Stmt)
+    (hl : c.layout = some L) (hu : c.layoutHasUse = false) (out : Bytes) (env' : Env)
+    (hL : evalProg f c env L [] = .ok (out, env')) :
+    evalProg (f + 1 + 1) c env [.use t n] [] = .ok (out, env') := by
+  rw [evalProg_cons, use_renders_layout f c env t n L hl hu, hL, Res.bind_ok, Res.bind_ok, evalProg_nil]
+  simp
+
+/-- a layout that itself uses a layout is an error -/
+theorem layout_with_use_is_error (f : Nat) (c : Ctx) (env : Env) (t : Token) (n : Bytes) (L : List Stmt)
+    (hl : c.layout = some L) (hu : c.layoutHasUse = true) :
+    evalStmt (f + 1) c env (.use t n) = .err "ErrUseStmtNotAllowed" t.errorLine [] := by
+  rw [evalStmt_succ]
+  simp only [stmtBody, hl, hu]
+  rfl
+
+/-- `@reserve(n)` with a block insert renders the block's text, evaluated with the data of the call -/
+theorem reserve_renders_block (f : Nat) (c : Ctx) (env : Env) (t : Token) (n : Bytes) (rid : Nat) (ins : InsertDef)
+    (blk : List Stmt) (hb : lookupNat c.inserts rid = some ins) (hblk : ins.block = some blk) :
+    evalStmt (f + 1) c env (.reserve t n rid) = (evalBlock f c env blk).bind fun r => .ok ({ text := r.1.text }, r.2) := by
+  rw [evalStmt_succ]
+  simp only [stmtBody, hb, hblk, calleesAt_block]
+
+/-- … with the expression form, the printed value of the expression -/
+theorem reserve_renders_value (f : Nat) (c : Ctx) (env : Env) (t : Token) (n : Bytes) (rid : Nat) (ins : InsertDef)
+    (ae : Expr) (hb : lookupNat c.inserts rid = some ins) (hblk : ins.block = none) (harg : ins.arg = some ae) :
+    evalStmt (f + 1) c env (.reserve t n rid) = (evalExpr f c env ae).bind fun v => .ok ({ text := v.toStr }, env) := by
+  rw [evalStmt_succ]
+  simp only [stmtBody, hb, hblk, harg, calleesAt_expr]
+
+/-- … and nothing when the page has no insert of that name -/
+theorem reserve_without_insert_renders_nothing (f : Nat) (c : Ctx) (env : Env) (t : Token) (n : Bytes) (rid : Nat)
+    (hb : lookupNat c.inserts rid = none) :
+    evalStmt (f + 1) c env (.reserve t n rid) = .ok ({}, env) := by
+  rw [evalStmt_succ]
+  simp only [stmtBody, hb]
+
+/-- an `@insert` renders nothing where it stands (its content goes to the reserve) -/
+theorem insert_renders_nothing_in_place (f : Nat) (c : Ctx) (env : Env) (t : Token) (n : Bytes) (a : Option Expr)
+    (bl : Option (List Stmt)) : evalStmt (f + 1) c env (.insert t n a bl) = .ok ({}, env) := rfl
+
+/-! ### loading -/
+
+/-- the insert bound to a reserve node is the page's insert of the reserve's name (allocation
+    numbers of the layout's reserve nodes are distinct) -/
+theorem bound_insert (ins : List (Bytes × InsertDef)) :
+    ∀ (reserves : List (Bytes × Nat)), reserves.Pairwise (fun x y => x.2 ≠ y.2) → ∀ n rid, (n, rid) ∈ reserves →
+      lookupNat (reserves.filterMap fun (n, rid) => (mapGet ins n).map fun i => (rid, i)) rid = mapGet ins n
+  | [], _, n, rid, h => by cases h
+  | (n0, r0) :: rest, hd, n, rid, hmem => by
+    have hd' := List.pairwise_cons.mp hd
+    rcases List.mem_cons.mp hmem with h | h
+    · cases h
+      simp only [List.filterMap_cons]
+      cases hg : mapGet ins n0 with
+      | none =>
+        simp only [Option.map_none]
+        -- no later entry has this number
+        unfold lookupNat
+        have : (rest.filterMap fun (n, rid) => (mapGet ins n).map fun i => (rid, i)).find? (fun p => p.1 == r0) = none := by
+          rw [List.find?_eq_none]
+          intro x hx
+          obtain ⟨y, hy, hxy⟩ := List.mem_filterMap.mp hx
+          obtain ⟨yn, yr⟩ := y
+          simp only [Option.map_eq_some_iff] at hxy
+          obtain ⟨i, _, hi⟩ := hxy
+          rw [← hi]
+          have := hd'.1 (yn, yr) hy
+          simpa using fun e => this e.symm
+        rw [this]; rfl
+      | some i => simp [lookupNat]
+    · have ih := bound_insert ins rest hd'.2 n rid h
+      simp only [List.filterMap_cons]
+      cases hg : mapGet ins n0 with
+      | none => simpa using ih
+      | some i =>
+        simp only [Option.map_some]
+        have hne : (r0 == rid) = false := by simpa using hd'.1 (n, rid) h
+        unfold lookupNat at ih ⊢
+        simp only [List.find?_cons, hne]
+        exact ih
+
+/-- an insert that names no reserve of the layout is reported, with the line of the insert -/
+theorem undefined_insert_is_reported (fs : Fs) (c : Cfg) (p : Bytes) (prog lprog : Program) (ut : Token) (lname : Bytes)
+    (n : Bytes) (ins : InsertDef)
+    (hp : parseFile fs p 0 = .ok prog) (hu : prog.useName = some (ut, lname))
+    (hl : parseFile fs (templatePath c lname) layoutBase = .ok lprog)
+    (hfind : (sortByKey prog.inserts).find? (fun x => (mapGet lprog.reserves x.1).isNone) = some (n, ins)) :
+    loadPage fs c p = .error (failOf "ErrUndefinedInsert" ins.tok.errorLine [n] p) := by
+  unfold loadPage
+  rw [hp]
+  simp only [hu, hl, hfind]
+
+/-- a missing (or unreadable) layout file is reported with the line of the `@use` -/
+theorem missing_layout_is_reported (fs : Fs) (c : Cfg) (p : Bytes) (prog : Program) (ut : Token) (lname : Bytes)
+    (hp : parseFile fs p 0 = .ok prog) (hu : prog.useName = some (ut, lname))
+    (hl : readFile fs (templatePath c lname) = .notExist) :
+    loadPage fs c p = .error (osFail ut.errorLine (templatePath c lname)) := by
+  unfold loadPage
+  rw [hp]
+  simp only [hu, parseFile, hl, osFail]
+  rfl
+
+/-- two inserts with one name: the parser records the error at the second one -/
+theorem duplicate_insert_is_reported (pe : Nat → PS → Expr × PS) (pbody : PS → List Stmt × PS) (p : PS)
+    (hok : (p.expectPeek .LPAREN).1 = true)
+    (hdup : (mapGet (p.expectPeek .LPAREN).2.next.inserts (p.expectPeek .LPAREN).2.next.cur.lit).isSome = true) :
+    parseInsertStmt pe pbody p =
+      (.bad, (p.expectPeek .LPAREN).2.next.err p.cur.errorLine "ErrDuplicateInserts" [(p.expectPeek .LPAREN).2.next.cur.lit]) := by
+  unfold parseInsertStmt
+  simp only []
+  rw [if_neg (by rw [hok]; simp), if_pos hdup]
+
+/-- what the loader registers for a page with a layout: the single statement `@use`, the
+    layout's statements, the inserts bound to the layout's reserve nodes, the component programs;
+    the page's own text outside inserts is not part of it -/
+theorem loaded_page_shape (fs : Fs) (c : Cfg) (p : Bytes) (prog lprog : Program) (ut : Token) (lname : Bytes)
+    (comps : List (Nat × List Stmt))
+    (hp : parseFile fs p 0 = .ok prog) (hu : prog.useName = some (ut, lname))
+    (hl : parseFile fs (templatePath c lname) layoutBase = .ok lprog)
+    (hfind : (sortByKey prog.inserts).find? (fun x => (mapGet lprog.reserves x.1).isNone) = none)
+    (hc : applyComponents fs c prog.components p = .ok comps) (hres : prog.reserves.isEmpty = true) :
+    loadPage fs c p = .ok (some
+      { stmts := [.use ut lname],
+        ctx := { layout := some lprog.stmts, layoutHasUse := lprog.useName.isSome,
+                 inserts := lprog.reserves.filterMap fun (n, rid) => (mapGet prog.inserts n).map fun ins => (rid, ins),
+                 comps := comps } }) := by
+  unfold loadPage
+  rw [hp]
+  simp only [hu, hl, hfind, hc, hres]
+  rfl
+
+/-- a file that declares reserves is a layout: it is not registered as a page -/
+theorem layout_files_are_not_pages (fs : Fs) (c : Cfg) (p : Bytes) (prog : Program) (comps : List (Nat × List Stmt))
+    (hp : parseFile fs p 0 = .ok prog) (hu : prog.useName = none)
+    (hc : applyComponents fs c prog.components p = .ok comps) (hres : prog.reserves.isEmpty = false) :
+    loadPage fs c p = .ok none := by
+  unfold loadPage
+  rw [hp]
+  simp only [hu, hc, hres]
+  rfl
+
+/-- `~name` in `@use` means `layouts/name` -/
+theorem tilde_means_layouts (p : PS) (rest : Bytes) (h : p.cur.lit = 126 :: rest) :
+    (aliasPath p "layouts").1 = b "layouts" ++ [47] ++ rest := by
+  unfold aliasPath
+  simp [h]
+
+/-! ### an instance through the whole pipeline: loader + evaluator on an in-memory file tree -/
+
+def demoFs : Fs :=
+  [ (b "templates", .dir), (b "templates/layouts", .dir),
+    (b "templates/layouts/main.tw.html", .file (b "<h1>@reserve(\"title\")</h1><p>@reserve(\"body\")</p>@reserve(\"none\")!")),
+    (b "templates/home.tw.html", .file (b "@use(\"~main\")ignored@insert(\"title\", t + \"!\")@insert(\"body\")Hi {{ name }}@end ignored")) ]
+
+example :
+    (match newTemplate { fs := demoFs } none with
+      | (w, .ok t) =>
+        (match tplString w t (b "home") [(b "name", .str (b "Ann")), (b "t", .str (b "T"))] with
+          | .ok out => out == b "<h1>T!</h1><p>Hi Ann</p>!"
+          | _ => false)
+      | _ => false) = true := by decide +kernel
 
 end Tw.C06
